@@ -309,6 +309,43 @@ def mutate_script(rng, script: bytes) -> bytes:
     return script[:rng.randrange(len(script))]
 
 
+def number_text(rng, text: str) -> str:
+    """rewrite one decimal field: leading zeros, and digit runs around btclib's ten-digit bound and CPython's
+    4300-digit int() limit (a longer run is a bare ValueError from int() unless refused before it)."""
+    import re
+    ms = list(re.finditer(r"(?<=\()(\d+)(?=[,)])", text))
+    if not ms:
+        return "older(" + "1" * rng.choice([10, 11, 4300, 4301, 10000]) + ")"
+    m = rng.choice(ms)
+    v = m.group(1)
+    r = rng.random()
+    if r < 0.4:
+        new = "0" * (rng.choice([9, 10, 11, 12, 4299, 4300, 4301, 10000]) - len(v)) + v
+    elif r < 0.7:
+        new = rng.choice("123456789") * rng.choice([9, 10, 11, 4300, 4301, 10000])
+    elif r < 0.85:
+        new = "0" * rng.randrange(1, 6) + v
+    else:
+        new = rng.choice(["2147483647", "2147483648", "4294967295", "9999999999", "10000000000", "0000000001"])
+    return text[:m.start()] + new + text[m.end():]
+
+
+def ws_text(rng, text: str) -> str:
+    """white space inside or around a hex argument, where `bytes.fromhex` skips it (between two bytes) or not (inside
+    one).  Only 20/32-byte digests of hash fragments and 33-byte keys: 32 bytes of key hex with white space are read
+    by btclib as a PRIVATE key, which is a BIP380 matter (C14) outside this model."""
+    import re
+    ms = [m for m in re.finditer(r"(sha256|hash256|ripemd160|hash160)\(([0-9a-f]+)\)|(?<![0-9a-f])(0[23][0-9a-f]{64})(?![0-9a-f])", text)]
+    if not ms:
+        return text
+    m = rng.choice(ms)
+    g = 2 if m.group(2) else 3
+    h, a = m.group(g), m.start(g)
+    w = rng.choice([" ", "\t", "\n", "\r", "\x0b", "\x0c", "  "])
+    k = rng.choice([0, len(h), 2 * rng.randrange(len(h) // 2 + 1), rng.randrange(len(h) + 1)])
+    return text[:a] + h[:k] + w + h[k:] + text[a + len(h):]
+
+
 def mutate_text(rng, text: str) -> str:
     """one structural edit of an expression's text; long hex runs (keys, digests) are left whole."""
     import re
@@ -568,6 +605,8 @@ def run(ctx):
         lines["parse"].append(f"parse {n.context} {hx(text.encode())}")
         for _ in range(2):
             lines["parse"].append(f"parse {n.context} {hx(mutate_text(rng, text).encode())}")
+        lines["parse"].append(f"parse {n.context} {hx(number_text(rng, text).encode())}")
+        lines["parse"].append(f"parse {n.context} {hx(ws_text(rng, text).encode())}")
     typed = {f"{op} {n.context} " + " ".join(tokens(n)) for n in nodes if n.properties for op in ("type", "size", "valid", "bounds")}
     for op, ls in lines.items():
         ctx.stream(op, ls, nontrivial=(lambda line, out: not out.startswith("err") and (line in typed or line.startswith("script"))))
